@@ -38,6 +38,12 @@ def demo_cmd(path):
     cmd = _re.sub(r";\s*echo\s+[^\n;&|]*\$\?[^\n]*$", "", cmd)
     return cmd
 os.makedirs("/tmp/seedres", exist_ok=True)
+if os.path.exists("/tmp/seedres/%s-%s.json" % (pid, m)) and not os.environ.get("SEED_FORCE"):
+    print("already done"); sys.exit(0)
+try:
+    os.close(os.open("/tmp/seedres/%s-%s.lock" % (pid, m), os.O_CREAT | os.O_EXCL))
+except FileExistsError:
+    print("another worker has it"); sys.exit(0)
 try:
     sh("git -C %s checkout -q -- ." % WT)
     r = sh("cd %s/%s && %s" % (D, m, demo_cmd("%s/%s/demo.txt" % (D, m))), timeout=1800)
